@@ -16,6 +16,11 @@ import os
 import sys
 import traceback
 
+# run-to-run determinism: terms contain frozensets of strings, whose iteration order follows the string hash seed
+if os.environ.get('PYTHONHASHSEED') != '0' and __name__ == '__main__':
+    os.environ['PYTHONHASHSEED'] = '0'
+    os.execv(sys.executable, [sys.executable] + sys.argv)
+
 sys.path.insert(0, os.path.dirname(os.path.dirname(os.path.abspath(__file__))))
 
 from sa.loader import AnalysisError, Corpus  # noqa: E402
